@@ -26,6 +26,13 @@ IsPaired(r) == r.paired = 1
 DrawUsable(r, u) ==
   /\ Len(r.draws) = r.k
   /\ IF IsPaired(r) THEN IsSigns(r.draws[u], r.nx) ELSE IsPermOf(r.draws[u], r.nx + r.ny)
+AllDrawsUsable(r) == Len(r.draws) = r.k /\ Len(r.null) = r.k /\ \A u \in 1..r.k : DrawUsable(r, u)
+(* the other natural reading of a served draw: the inverse permutation (position p[s]  *)
+(* receives subject s) resp. the opposite signs (sign(rand - 0.5))                    *)
+AltDraw(r, u) ==
+  LET d == r.draws[u] IN
+  IF IsPaired(r) THEN [s \in DOMAIN d |-> -d[s]]
+  ELSE [i \in DOMAIN d |-> CHOOSE j \in DOMAIN d : d[j] = i]
 
 (* same observed components: same marked connections, same grouping into labels     *)
 SameComponents(n, a, b) ==
@@ -62,12 +69,16 @@ JudgeDomain(r) ==
            /\ IsFinite(r.pvals[l])
            /\ Abs(r.pvals[l] * r.k - CountGE(r.null, LinksWithLabel(n, adj, l)) * 1000000) <= r.k,
   (* "each being the largest component size under one random relabelling of subjects": *)
-  (*  under the relabelling the stream served for it, or else under some relabelling   *)
+  (*  when the stream served exactly one draw per null value, under the relabelling that *)
+  (*  draw denotes (either reading); when the routine draws differently, under some      *)
+  (*  relabelling                                                                       *)
   Chk("NullEntryIsMaxComponent",
-        \A u \in 1..Len(r.null) :
-           \/ /\ DrawUsable(r, u)
-              /\ r.null[u] \in NullLegalUnder(n, pd, xs, ys, r.tn, r.td, r.tail, r.draws[u])
-           \/ NullLegalUnderSome(n, pd, xs, ys, r.tn, r.td, r.tail, r.null[u]),
+        IF AllDrawsUsable(r)
+        THEN \A u \in 1..r.k :
+               \/ r.null[u] \in NullLegalUnder(n, pd, xs, ys, r.tn, r.td, r.tail, r.draws[u])
+               \/ r.null[u] \in NullLegalUnder(n, pd, xs, ys, r.tn, r.td, r.tail, AltDraw(r, u))
+        ELSE \A u \in 1..Len(r.null) :
+               NullLegalUnderSome(n, pd, xs, ys, r.tn, r.td, r.tail, r.null[u]),
   (* "Swapping the two groups together with the tail (or under tail='both') ... leave   *)
   (*  the observed components unchanged"  (undecided edges: either outcome is legal in  *)
   (*  each call separately, nothing to compare)                                        *)
@@ -112,6 +123,7 @@ Drift(r) ==
   ELSE IF Len(r.pvals) # Len(o.szl) THEN "differs:pvals"
   ELSE IF r.has_expect = 1 /\ r.script_status = "followed" /\ r.exp_tie = 0
           /\ (r.exp_raised = 1 \/ r.exp_adj # r.adj \/ r.exp_null # r.null
+              \/ Len(r.exp_cnt) # Len(r.pvals)
               \/ \E l \in 1..Len(r.pvals) : Abs(r.pvals[l] * r.k - r.exp_cnt[l] * 1000000) > r.k)
        THEN "differs:model_behaviour"
   ELSE IF r.has_expect = 1 /\ r.script_status # "followed" THEN "differs:off_script"
